@@ -8,7 +8,7 @@ package vectorstore
 //@ spec bitAt(b []uint64, k int) bool = (b[k/64] >> uint64(k%64)) & 1 == 1
 
 //@ func (*binaryQuantizer).encode
-//@   property C20
+//@   property C03 C04 C20
 //@   arith bv
 //@   requires bq.threshold != nil ==> len(bq.threshold) >= len(vector)
 //@   ensures bq.threshold == nil ==> result == nil
@@ -179,14 +179,14 @@ package vectorstore
 // ---- persisted quantiser parameters (property C08): Flush writes the item cache and then the
 // learned parameters under the keys the constructors read back, with the inverse codec.
 //@ func (*binaryQuantizer).Flush
-//@   property C08
+//@   property C03 C04 C08
 //@   requires bq.items != nil && unheld(bq.items.itemsMu) && bq.items.items != nil && forallv(k uint64, contains(bq.items.items, k) ==> bq.items.items[k] != nil)
 //@   requires forallv(a uint64, forallv(b uint64, a != b && contains(bq.items.items, a) && contains(bq.items.items, b) ==> bq.items.items[a] != bq.items.items[b]))
 //@   ensures callarg(Flush, 1, 0) == bq.items && (callres(Flush, 1, 0) != nil ==> result != nil && ncalls(Put) == 0)
 //@   ensures result == nil && len(bq.threshold) > 0 ==> ncalls(Put) == 1 && string(callarg(Put, 1, 1)) == "_binaryQuantizerThreshold" && callarg(Put, 1, 2) == callres(Float32ToBytes, 1, 0) && callarg(Float32ToBytes, 1, 0) == bq.threshold
 //@   ensures ncalls(Put) == 1 && callres(Put, 1, 0) != nil ==> result != nil
 //@ func newBinaryQuantizer
-//@   property C08
+//@   property C03 C04 C08
 //@   safety -makelen -overflow
 //@   ensures err == nil ==> result0 != nil && fresh(result0) && result0.bucket == bucket && result0.items != nil && result0.items.bucket == bucket
 //@   ensures err == nil && params.Threshold == nil ==> ncalls(Get) == 1 && string(callarg(Get, 1, 1)) == "_binaryQuantizerThreshold"
@@ -196,7 +196,7 @@ package vectorstore
 //@   loop 1 invariant rangeindex >= -1 && rangeindex < len(bq.threshold) && len(bq.threshold) == vectorLen && fresh(bq) && fresh(bq.threshold) && params.Threshold != nil
 //@   loop 1 invariant forall(i, 0, rangeindex+1, sameFloat(bq.threshold[i], *params.Threshold))
 //@ func (*productQuantizer).Flush
-//@   property C08
+//@   property C03 C04 C08
 //@   requires pq.items != nil && unheld(pq.items.itemsMu) && pq.items.items != nil && forallv(k uint64, contains(pq.items.items, k) ==> pq.items.items[k] != nil)
 //@   requires forallv(a uint64, forallv(b uint64, a != b && contains(pq.items.items, a) && contains(pq.items.items, b) ==> pq.items.items[a] != pq.items.items[b]))
 //@   ensures callarg(Flush, 1, 0) == pq.items && (callres(Flush, 1, 0) != nil ==> result != nil && ncalls(Put) == 0)
@@ -205,7 +205,7 @@ package vectorstore
 //@   ensures ncalls(Put) >= 1 && callres(Put, 1, 0) != nil ==> result != nil
 //@   ensures ncalls(Put) == 2 && callres(Put, 2, 0) != nil ==> result != nil
 //@ func newProductQuantizer
-//@   property C08
+//@   property C03 C04 C08
 //@   safety -overflow -div
 //@   ensures err == nil ==> result0 != nil && fresh(result0) && result0.bucket == bucket && result0.items != nil && result0.items.bucket == bucket
 //@   ensures err == nil ==> ncalls(Get) == 2 && string(callarg(Get, 1, 1)) == "_productQuantizerCentroidDists" && string(callarg(Get, 2, 1)) == "_productQuantizerFlatCentroids"
